@@ -6,37 +6,84 @@ import EgoVerif.C39.Model
    `req  <path> <range|none> <G|H> <missing|dir:N|file:HEX> <none|hit:HEX> <xform> <md>`
         (`reqorig` = the code before fixes/C39.patch)
         → `403` | `400` | `404` | `416 <cr>` | `200 <clen> <body>` | `206 <cr> <clen> <body>` | `panic`
-   `xform` = output of the minifier on the file, `md` = mdToHTML of the loaded data. -/
+   `xform` = output of the minifier on the file, `md` = mdToHTML of the loaded data.
+   Large assets travel in compact form.  `file:gen:N:K` is the file of the N bytes `genByte K 0 …
+   genByte K (N-1)` (the harness checks that the file on its side is exactly that sequence before it
+   writes the field); `hit:=` and an xform field `=` stand for "byte for byte the file" (checked by the
+   harness likewise) and share the list instead of building it again.  A response
+   body longer than `bigBody` bytes is written as `#<length>:<FNV-1a 64 of the body, decimal>`. -/
 namespace EgoVerif.C39
 
 def hx (b : Bytes) : String := if b.isEmpty then "-" else hexOfBytes b
 
 def unhx (s : String) : Option Bytes := if s == "-" then some [] else bytesOfHex s
 
+/-- byte `i` of the generated asset with salt `k` (the harness's `c39GenByte`; uint64 arithmetic) -/
+def genByte (k : UInt64) (i : Nat) : UInt8 :=
+  let x : UInt64 := i.toUInt64 * 2654435761 + k
+  ((x >>> 24) ^^^ (x >>> 9) ^^^ x).toUInt8
+
+def genLoop (k : UInt64) : Nat → Bytes → Bytes      -- tail recursive: the files have millions of bytes
+  | 0, acc => acc
+  | n + 1, acc => genLoop k n (genByte k n :: acc)
+
+def genBytes (n : Nat) (k : UInt64) : Bytes := genLoop k n []
+
+/-- a byte-string field: `-`, hex, or `gen:N:K` -/
+def unhxBig (s : String) : Option Bytes :=
+  if s.startsWith "gen:" then
+    match (s.drop 4).toString.splitOn ":" with
+    | [n, k] =>
+      match n.toNat?, k.toNat? with
+      | some n, some k => if n ≤ 16777216 then some (genBytes n k.toUInt64) else none
+      | _, _ => none
+    | _ => none
+  else unhx s
+
+def bigBody : Nat := 4096
+
+def fnv64 (b : Bytes) : UInt64 :=
+  b.foldl (fun h c => (h ^^^ c.toUInt64) * 1099511628211) 14695981039346656037
+
+/-- a response body on the wire -/
+def hxBody (b : Bytes) : String :=
+  let n := b.length
+  if n > bigBody then "#" ++ toString n ++ ":" ++ toString (fnv64 b).toNat else hx b
+
 def parseNode (s : String) : Option Node :=
   if s == "missing" then some .missing
   else if s.startsWith "dir:" then (s.drop 4).toNat?.map Node.dir
-  else if s.startsWith "file:" then (unhx (s.drop 5).toString).map Node.file
+  else if s.startsWith "file:" then (unhxBig (s.drop 5).toString).map Node.file
   else none
 
-def parseCache (s : String) : Option (Option Bytes) :=
+/-- a byte-string field that may be `=`: the very bytes of the file node (shared, not regenerated) -/
+def unhxSame (same : Option Bytes) (s : String) : Option Bytes :=
+  if s == "=" then same else unhx s
+
+def parseCache (same : Option Bytes) (s : String) : Option (Option Bytes) :=
   if s == "none" then some none
-  else if s.startsWith "hit:" then (unhx (s.drop 4).toString).map some
+  else if s.startsWith "hit:" then (unhxSame same (s.drop 4).toString).map some
   else none
 
 def showResp : Res (Resp × Option Bytes) → String
   | .panic _ => "panic"
   | .ok (.err s, _) => toString s
   | .ok (.unsat cr, _) => "416 " ++ hx cr
-  | .ok (.full n b, _) => "200 " ++ toString n ++ " " ++ hx b
-  | .ok (.part cr n b, _) => "206 " ++ hx cr ++ " " ++ toString n ++ " " ++ hx b
+  | .ok (.full n b, _) => "200 " ++ toString n ++ " " ++ hxBody b
+  | .ok (.part cr n b, _) => "206 " ++ hx cr ++ " " ++ toString n ++ " " ++ hxBody b
 
 def doReq (fixed : Bool) (path rng meth node cache xf md : String) : String :=
   let rngO : Option (Option Bytes) := if rng == "none" then some none else (unhx rng).map some
-  match unhx path, rngO, parseNode node, parseCache cache, unhx xf, unhx md with
-  | some p, some r, some n, some c, some x, some m =>
-    showResp (handle fixed ⟨fun _ => x, fun _ => m⟩ ⟨p, r, meth == "H", n, c⟩)
-  | _, _, _, _, _, _ => "bad-input"
+  match parseNode node with
+  | none => "bad-input"
+  | some n =>
+    let same : Option Bytes := match n with
+      | .file f => some f
+      | _ => none
+    match unhx path, rngO, parseCache same cache, unhxSame same xf, unhx md with
+    | some p, some r, some c, some x, some m =>
+      showResp (handle fixed ⟨fun _ => x, fun _ => m⟩ ⟨p, r, meth == "H", n, c⟩)
+    | _, _, _, _, _ => "bad-input"
 
 def handleLine (line : String) : String :=
   match fields line with
